@@ -219,6 +219,10 @@ def run(ctx):
     check_weighted_sums(ctx)
     check_predicates(ctx)
     check_ignored_points(ctx)
+    # the flags a data line carries are the flags the fit sees: the reader of the data file hands them over as given (C20's line scenarios)
+    from . import c20
+    repo = ctx.repo
+    c20.from_ascii_scenarios(ctx, repo, repo.cls('source.source', 'Source'), ctx.fn(repo.func('source.source', 'Source.from_ascii')))
     ctx.exhaustive = True
 
 
